@@ -5,8 +5,9 @@ import time
 from mc import core, threads
 
 PROP = 'C19'
-TECH = 'stateless exploration (CHESS style) of real OS threads under a baton scheduler: caller threads x the real auto-tick thread of a real SyncObj, scheduling points at every traced source line of the hand-over code and at every lock/event/sleep/poll operation, depth-first over choice sequences with iterative pre-emption bounding'
-ASSUME = ['one-node cluster (majority of one) so that the protocol part is short and deterministic; virtual clock',
+TECH = 'stateless exploration (CHESS style) of real OS threads under a baton scheduler: caller threads x the real auto-tick thread of a real SyncObj, scheduling points at every traced source line of the hand-over code and at every lock/event/sleep/poll operation, depth-first over choice sequences with iterative pre-emption bounding; plus explicit-state BFS over worlds of 2-3 real SyncObj nodes (engine E1) for the cluster-wide half: local and forwarded calls sharing the command queue of the leader, queue limits 1 and 2, every callback fires exactly once'
+ASSUME = ['cluster jobs: sequential nodes on the simulated transport, fault-free network, budgets in coverage.jobs[].budget; QUEUE_FULL is an accepted answer for the closing-run submissions when the queue limit is below 100',
+          'thread jobs: one-node cluster (majority of one) so that the protocol part is short and deterministic; virtual clock',
           'line granularity, CPython GIL memory model',
           'deviation bound 1 (quick, plus one bound-2 job capped at 9000 executions) / 2 (thorough): a deviation is a pre-emption of a runnable thread or any non-default pick at a yield/block/exit point; the default schedule is round robin at yields, so every explored schedule is fair',
           'quick tier traces the hand-over functions (enqueue, queue, dequeue, apply loop, decorator, AsyncResult); thorough traces every line of syncobj.py and fast_queue.py']
@@ -222,17 +223,55 @@ def jobs_for(tier):
     return [(n, dict(plan=p, qsize=qs, bound=bb, mode=m, max_executions=cap)) for n, p, qs, bb, m in js]
 
 
+MONS = (('mc.monitors', 'ExceptionMonitor', dict(prop='C19')),
+        ('mc.closing', 'AllCallbacksMonitor', dict(prop='C19', variants=('all',))))
+CL = ('C02', 'C01')
+
+
+def cluster_specs(tier):
+    """The cluster-wide half of the statement (engine E1, sequential nodes): what the tick thread does with the
+    queue it shares with the callers when the same queue also receives the calls forwarded by another node -
+    local and forwarded calls drained in one tick, and a queue limit of 1 hit by local and by forwarded calls.
+    Every callback must fire exactly once (closing run from every state), applied-once and result oracles of C02."""
+    from mc.jobs import J
+    q = tier == 'quick'
+    js = [
+        J('cluster-steady2:S3H1', 'steady', dict(n=2), dict(S=3, H=1), dict(k=0)),
+        J('cluster-steady2-q1:S3H1', 'steady', dict(n=2, qsize=1), dict(S=3, H=1), dict(k=0)),
+        J('cluster-steady3-q1:S2H1', 'steady', dict(n=3, qsize=1), dict(S=2, H=1), dict(k=0)),
+        J('cluster-steady2-q2:S4H1', 'steady', dict(n=2, qsize=2), dict(S=4, H=1), dict(k=0)),
+    ]
+    if not q:
+        js += [J('cluster-steady3-q1:S3H1', 'steady', dict(n=3, qsize=1), dict(S=3, H=1), dict(k=0)),
+               J('cluster-steady3-q2:S5H2', 'steady', dict(n=3, qsize=2), dict(S=5, H=2), dict(k=0)),
+               J('cluster-steady2+1-q1:S4H2', 'steady', dict(n=2, observers=1, qsize=1), dict(S=4, H=2), dict(k=0))]
+    for j in js:
+        j['max_states'] = 150000 if q else 1500000
+    return js
+
+
+def thread_replay(name, trace):
+    head, choices = trace[0], trace[1]
+    plan = tuple(tuple(p) for p in head[1])
+    s, obj = run_execution(list(choices), plan, head[2], head[3])
+    v = judge(s, obj, plan)
+    return ('C19 ' + v) if v else None
+
+
 def main(tier, seed, job_filter=None):
-    rep = core.Report(PROP, tier, seed, TECH, ASSUME)
+    from mc import jobs as mjobs
     js = [(job, dict(name=n, **kw)) for n, kw in jobs_for(tier) if not job_filter or job_filter in n]
-    rep.add(core.run_jobs(js))
-    rep.extra['executions'] = sum(r.extra.get('executions', 0) for r in rep.results)
-    return rep.finish()
+    thr = core.run_jobs(js) if js else []
+    return mjobs.run_cluster_check(PROP, tier, seed, cluster_specs(tier), CL, TECH, ASSUME, job_filter, extra_monitors=MONS,
+                                   extra_results=thr, extra_replay=thread_replay)
 
 
 def replay_file(path):
     import json
     d = json.load(open(path))
+    if d['job'].startswith('cluster-'):
+        from mc import jobs as mjobs
+        return mjobs.replay_file_cluster(PROP, path, [dict(x, clauses=CL, extra_monitors=MONS) for x in cluster_specs('thorough') + cluster_specs('quick')])
     head, choices = d['trace'][0], d['trace'][1]
     plan = tuple(tuple(p) for p in head[1])
     s, obj = run_execution(list(choices), plan, head[2], head[3])
